@@ -322,7 +322,24 @@ impl Lexer {
     }
 
     fn into_tokens(self) -> Vec<Token> {
+        // spans were counted in characters while lexing; everything downstream (line tables,
+        // diagnostics, LSP) works with byte offsets into the source
+        let mut byte_of = Vec::with_capacity(self.chars.len() + 1);
+        let mut b = 0;
+        for c in &self.chars {
+            byte_of.push(b);
+            b += c.len_utf8();
+        }
+        byte_of.push(b);
+        let last = byte_of.len() - 1;
         self.tokens
+            .into_iter()
+            .map(|mut t| {
+                t.span.lo = byte_of[t.span.lo.min(last)];
+                t.span.hi = byte_of[t.span.hi.min(last)];
+                t
+            })
+            .collect()
     }
 
     fn handle_num(&mut self) {
